@@ -389,7 +389,23 @@ def c18(cx):
                   ASSUME_CONN)
 
 
-PROPS = {"C18": c18, "C03": c03, "C02": c02, "C09": c09, "C14": c14, "C16": c16, "C20": c20, "C10": c10, "C19": c19, "C12": c12, "C01": c01, "C13": c13, "C05": c05, "C06": c06, "C07": c07, "C08": c08, "C17": c17}
+def c11(cx):
+    return conn_family(
+        cx, "MC_C11", "C11", 400, 6000,
+        rule="TLC explores the TLS negotiation on the bounded model: server without TLS configuration, with an empty "
+             "certificate list, with a certificate; client starting in plaintext, sending SSLRequest (alone, with plaintext "
+             "stuffed behind it in the same segment, with plaintext pushed in a later segment before the handshake), "
+             "completing the handshake, then a startup packet and a small session, a second SSLRequest or a CancelRequest - "
+             "inside the TLS session or in plaintext after 'N'; it checks 'S' only with certificates, nothing dispatched "
+             "while the handshake is pending, stuffing never dispatched. The transition cover is executed on the real "
+             "server with a real crypto/tls client over a tapped in-memory wire (self-signed certificate generated at run "
+             "time); TLC validates that every raw server write after 'S' consists of TLS records, and that the protocol "
+             "conversation the TLS client sees inside the session is a behaviour of the same PgConn machine as in "
+             "plaintext. Random driver: whole simple / extended / COPY sessions inside TLS and after 'N'.",
+        max_replay_quick=None)
+
+
+PROPS = {"C11": c11, "C18": c18, "C03": c03, "C02": c02, "C09": c09, "C14": c14, "C16": c16, "C20": c20, "C10": c10, "C19": c19, "C12": c12, "C01": c01, "C13": c13, "C05": c05, "C06": c06, "C07": c07, "C08": c08, "C17": c17}
 
 
 def replay(cx, path):
